@@ -798,7 +798,8 @@ pub fn minimise<P: Property>(p: &P, known: &KnownFindings, trace: &P::Trace, f0:
         if execs >= budget {
             break;
         }
-        for cand in p.shrink(&cur) {
+        // (a panic while proposing simpler traces must not take the report down with it)
+        for cand in catch(|| p.shrink(&cur)).unwrap_or_default() {
             if execs >= budget {
                 break 'outer;
             }
